@@ -194,7 +194,11 @@ RxSession(s, m, beh) ==
          ELSE LET h == Get(s.pend["subscribe"], m.req).x
                   old == IF HasSub(s, m.sub) THEN SubOf(s, m.sub).hs ELSE <<>>
                   r == Complete(s, "subscribe", m.req, TRUE)
-              IN Mk([r.s EXCEPT !.subs = {x \in @ : x.sub # m.sub} \cup {[sub |-> m.sub, hs |-> Append(old, h)]}], r.re)
+                  r2 == Mk([r.s EXCEPT !.subs = {x \in @ : x.sub # m.sub} \cup {[sub |-> m.sub, hs |-> Append(old, h)]}], r.re)
+              IN IF ~m.unsub THEN r2
+                 \* the application unsubscribes in the continuation of subscribe(): the handler is already recorded then
+                 ELSE LET un == Unsubscribe(r2.s, m.sub, h, Len(old) + 1) IN
+                      Mk(un.s, [un.re EXCEPT !.done = r2.re.done \o un.re.done])
     [] m.t = "unsubscribed" ->
          IF m.req \notin Ids(s.pend["unsubscribe"]) THEN Violation(s)
          ELSE LET sub == Get(s.pend["unsubscribe"], m.req).x
@@ -246,7 +250,7 @@ RouterMsgs ==
   \cup {[t |-> "result", req |-> r, progress |-> p] : r \in 1..MaxReq, p \in BOOLEAN}
   \cup {[t |-> "error", kind |-> k, req |-> r] : k \in Kinds, r \in 1..MaxReq}
   \cup {[t |-> x, req |-> r] : x \in {"published", "unsubscribed", "unregistered"}, r \in 1..MaxReq}
-  \cup {[t |-> "subscribed", req |-> r, sub |-> b] : r \in 1..MaxReq, b \in SubIds}
+  \cup {[t |-> "subscribed", req |-> r, sub |-> b, unsub |-> u] : r \in 1..MaxReq, b \in SubIds, u \in BOOLEAN}
   \cup {[t |-> "registered", req |-> r, reg |-> g] : r \in 1..MaxReq, g \in RegIds}
   \cup {[t |-> "event", sub |-> b, p |-> pq[1], q |-> pq[2]] : b \in SubIds, pq \in {<<0, 0>>, <<1, 1>>, <<1, 2>>, <<2, 1>>, <<2, 2>>}}
   \cup {[t |-> "invocation", req |-> r, reg |-> g, rp |-> p] : r \in 1..MaxReq, g \in RegIds, p \in BOOLEAN}
@@ -258,6 +262,7 @@ Next ==
         \* (a router following the session state machine sends WELCOME at most once per connection)
         /\ m.t = "welcome" => Count(hist.cbs, "onJoin") = 0
         /\ m.t = "invocation" => m.req \notin hist.invoked          \* (... and never reuses an invocation request id)
+        /\ (m.t = "subscribed" /\ m.unsub) => s.nreq < MaxReq
         /\ (m.t = "event" /\ m.p > 0) => s.nreq < MaxReq            \* (a re-entrant unsubscribe may issue a request: same bound as the API)
         /\ IF m.t \in {"welcome", "challenge"} THEN \E u \in U : Apply(Rx(s, m, u, "value"))
            ELSE IF m.t = "invocation" THEN \E beh \in SyncBehaviours \cup {"pending"} : Apply(Rx(s, m, U0, beh))
